@@ -17,7 +17,8 @@
    (2) the declarative image of the machine on a recorded call, ExpectedCalls(r): exactly which kernel is
        called with which dimensions, which block of L (offset) and which part of B / x (offset: first column of the
        supernode + right-hand side * leading dimension), in which order.  SolveOK(r) compares it with the calls recorded
-       from the real routine through --wrap of ?lsolve / ?matvec / ?usolve / ?trsv_ / sp_?trsv.  The machine's own output
+       from the real routine through --wrap of ?lsolve / ?matvec / ?usolve / ?trsv_ / sp_?trsv (and of ?trsm_ / ?gemm_ / ?gemv_ in
+       the USE_VENDOR_BLAS configuration, where the same blocks go to the BLAS).  The machine's own output
        is checked against ExpectedCalls in the model runs (EmitsExpected), so the two descriptions cannot drift apart. *)
 EXTENDS Naturals, Integers, Sequences, FiniteSets, SequencesExt, TLC
 
@@ -27,31 +28,42 @@ Nr(s) == s[3]
 Lp(s) == s[4]
 
 (* ---------------------------------------------------------------- (2) kernel calls of one supernode *)
-\* code, a, b, c, offset in the values of L, offset in the vector
-LNCalls(s, x) == IF Nc(s) = 1 THEN <<>>
-                 ELSE << <<1, Nr(s), Nc(s), 0, Lp(s), Fs(s) + x>>, <<2, Nr(s), Nr(s) - Nc(s), Nc(s), Lp(s) + Nc(s), Fs(s) + x>> >>
-UNCalls(s, x) == IF Nc(s) = 1 THEN <<>> ELSE << <<3, Nr(s), Nc(s), 0, Lp(s), Fs(s) + x>> >>
-\* transposed sweeps use the BLAS ?trsv_ on the diagonal block: 100 uplo + 10 trans + unit
-LTCalls(s, x, t) == IF Nc(s) = 1 THEN <<>> ELSE << <<5, 100 + 10 * t + 1, Nc(s), Nr(s), Lp(s), Fs(s) + x>> >>
-UTCalls(s, x, t) == IF Nc(s) = 1 THEN <<>> ELSE << <<5, 200 + 10 * t, Nc(s), Nr(s), Lp(s), Fs(s) + x>> >>
+\* code, a, b, c, d, e, offset in the values of L, offset in the vector / in B.  bl = 0: the library's own dense kernels,
+\* bl = 1: the USE_VENDOR_BLAS configuration (what the repository's CMake build compiles): the same blocks go to the BLAS
+LNCalls(s, x, bl) ==
+    IF Nc(s) = 1 THEN <<>>
+    ELSE IF bl = 0 THEN << <<1, Nr(s), Nc(s), 0, 0, 0, Lp(s), Fs(s) + x>>, <<2, Nr(s), Nr(s) - Nc(s), Nc(s), 0, 0, Lp(s) + Nc(s), Fs(s) + x>> >>
+                   ELSE << <<5, 101, Nc(s), Nr(s), 0, 0, Lp(s), Fs(s) + x>>, <<8, 0, Nr(s) - Nc(s), Nc(s), Nr(s), 1, Lp(s) + Nc(s), Fs(s) + x>> >>
+UNCalls(s, x, bl) ==
+    IF Nc(s) = 1 THEN <<>>
+    ELSE IF bl = 0 THEN << <<3, Nr(s), Nc(s), 0, 0, 0, Lp(s), Fs(s) + x>> >> ELSE << <<5, 200, Nc(s), Nr(s), 0, 0, Lp(s), Fs(s) + x>> >>
+\* transposed sweeps use the BLAS ?trsv_ on the diagonal block in both configurations: 100 uplo + 10 trans + unit
+LTCalls(s, x, t) == IF Nc(s) = 1 THEN <<>> ELSE << <<5, 100 + 10 * t + 1, Nc(s), Nr(s), 0, 0, Lp(s), Fs(s) + x>> >>
+UTCalls(s, x, t) == IF Nc(s) = 1 THEN <<>> ELSE << <<5, 200 + 10 * t, Nc(s), Nr(s), 0, 0, Lp(s), Fs(s) + x>> >>
+\* ?gstrs with the BLAS: all right-hand sides of a supernode at once (?trsm_: 1000 side + 100 uplo + 10 trans + unit, m, n, lda, ldb; ?gemm_: m, n, k, lda, ldb)
+LNBlas3(s, nrhs, ldb) == IF Nc(s) = 1 THEN <<>>
+                         ELSE << <<6, 1101, Nc(s), nrhs, Nr(s), ldb, Lp(s), Fs(s)>>, <<7, Nr(s) - Nc(s), nrhs, Nc(s), Nr(s), ldb, Lp(s) + Nc(s), Fs(s)>> >>
+UNBlas3(s, nrhs, ldb) == IF Nc(s) = 1 THEN <<>> ELSE << <<6, 1200, Nc(s), nrhs, Nr(s), ldb, Lp(s), Fs(s)>> >>
 
 Rev(sq) == [i \in 1..Len(sq) |-> sq[Len(sq) + 1 - i]]
 Cat(f(_), sq) == FlattenSeq([i \in 1..Len(sq) |-> f(sq[i])])
 
 \* sp_?trsv(uplo, trans, diag) on one vector; tb = the trans code the BLAS kernel must get
 \* (real data: 'T' also for 'C'; complex data: the caller's letter)
-TrsvCalls(sn, uplo, trans, tb) ==
+TrsvCalls(sn, uplo, trans, tb, bl) ==
     IF trans = 0
-    THEN IF uplo = 1 THEN Cat(LAMBDA s: LNCalls(s, 0), sn) ELSE Cat(LAMBDA s: UNCalls(s, 0), Rev(sn))
+    THEN IF uplo = 1 THEN Cat(LAMBDA s: LNCalls(s, 0, bl), sn) ELSE Cat(LAMBDA s: UNCalls(s, 0, bl), Rev(sn))
     ELSE IF uplo = 1 THEN Cat(LAMBDA s: LTCalls(s, 0, tb), Rev(sn)) ELSE Cat(LAMBDA s: UTCalls(s, 0, tb), sn)
 
 \* ?gstrs: no transpose = all right-hand sides supernode by supernode (forward, then backward);
 \* transposed = right-hand side by right-hand side through sp_?trsv (U' first, then L')
-GstrsCalls(sn, op, nrhs, ldb, ts) ==
+GstrsCalls(sn, op, nrhs, ldb, ts, bl) ==
     IF op = 0
-    THEN Cat(LAMBDA s: FlattenSeq([j \in 1..nrhs |-> LNCalls(s, (j - 1) * ldb)]), sn)
-         \o Cat(LAMBDA s: FlattenSeq([j \in 1..nrhs |-> UNCalls(s, (j - 1) * ldb)]), Rev(sn))
-    ELSE FlattenSeq([j \in 1..nrhs |-> << <<4, 2, ts, 0, 0, (j - 1) * ldb>>, <<4, 1, ts, 1, 0, (j - 1) * ldb>> >>])
+    THEN IF bl = 0
+         THEN Cat(LAMBDA s: FlattenSeq([j \in 1..nrhs |-> LNCalls(s, (j - 1) * ldb, 0)]), sn)
+              \o Cat(LAMBDA s: FlattenSeq([j \in 1..nrhs |-> UNCalls(s, (j - 1) * ldb, 0)]), Rev(sn))
+         ELSE Cat(LAMBDA s: LNBlas3(s, nrhs, ldb), sn) \o Cat(LAMBDA s: UNBlas3(s, nrhs, ldb), Rev(sn))
+    ELSE FlattenSeq([j \in 1..nrhs |-> << <<4, 2, ts, 0, 0, 0, 0, (j - 1) * ldb>>, <<4, 1, ts, 1, 0, 0, 0, (j - 1) * ldb>> >>])
 
 \* the supernodes tile 0..n-1 (NUMBER order is the order of creation: compatible with the elimination tree, not the column order, once
 \* several threads number supernodes of different subtrees), each has at least as many rows as columns, blocks do not overlap
@@ -64,8 +76,8 @@ SnOK(sn, n) ==
           \/ Lp(sn[j]) + Nr(sn[j]) * Nc(sn[j]) <= Lp(sn[i])
 
 ExpectedCalls(r) ==
-    IF r.kind = 0 THEN GstrsCalls(r.sn, r.op, r.nrhs, r.ldb, IF r.cplx = 1 THEN r.op ELSE 1)
-    ELSE TrsvCalls(r.sn, r.uplo, r.op, IF r.cplx = 1 THEN r.op ELSE 1)
+    IF r.kind = 0 THEN GstrsCalls(r.sn, r.op, r.nrhs, r.ldb, IF r.cplx = 1 THEN r.op ELSE 1, r.blas)
+    ELSE TrsvCalls(r.sn, r.uplo, r.op, IF r.cplx = 1 THEN r.op ELSE 1, r.blas)
 
 SolveOK(r) ==
     /\ SnOK(r.sn, r.n)
@@ -129,7 +141,7 @@ StepN == /\ mode[2] = 0 /\ pos < NS
             IN /\ bad' = (bad \/ \E c \in Cols(k) : pend[c] # {})
                /\ solved' = solved \cup Cols(k)
                /\ pend' = [i \in Rng |-> IF i \in tgt THEN pend[i] \ Cols(k) ELSE pend[i]]
-               /\ out' = out \o (IF mode[1] = 1 THEN LNCalls(s, 0) ELSE UNCalls(s, 0))
+               /\ out' = out \o (IF mode[1] = 1 THEN LNCalls(s, 0, 0) ELSE UNCalls(s, 0, 0))
          /\ pos' = pos + 1
          /\ UNCHANGED <<lrows, urows, mode>>
 
@@ -149,7 +161,7 @@ SNext == StepN \/ StepT
 SSpec == SInit /\ [][SNext]_svars /\ WF_svars(SNext)
 
 FinalBeforeUse == ~bad
-EmitsExpected == pos = NS => out = TrsvCalls(SnDesc(lrows), mode[1], mode[2], 1) /\ SnOK(SnDesc(lrows), N)
+EmitsExpected == pos = NS => out = TrsvCalls(SnDesc(lrows), mode[1], mode[2], 1, 0) /\ SnOK(SnDesc(lrows), N)
 AllSolved == pos = NS => solved = Rng /\ (mode[2] = 0 => \A i \in Rng : pend[i] = {})
 STerminates == <>(pos = NS)
 =============================================================================
